@@ -44,6 +44,10 @@ def run(model, tier="quick"):
                   "new bar: this bar's row, prices stored, all five caches emptied", ["set_market_status", "reset"])
     from .base_refs import base_helpers
     res.units["memo_container_methods"] = base_helpers(res, model, ("cache",))   # the typestate rule trusts reset/set/empty
+    from ..rules.fresh import fresh_rule
+    if "R-FRESH" not in res.rules:
+        res.rules.append("R-FRESH")
+    fresh_rule(model, res, scope=('demeter/aave/',))
     res.assumptions = [
         "the only memo caches are the DictCache-typed fields assigned in AaveV3Market.__init__ (discovered, not listed)",
         "a supply whose collateral flag is False does not contribute to the collateral view (collateral-conditional reset idiom)",
